@@ -58,7 +58,14 @@ def _get_unmarshaller(  # type: ignore[return]
     context: routines.ContextT,
 ) -> routines.AbstractUnmarshaller[T]:
     if node.type in context:
-        return context[node.type]
+        routine = context[node.type]
+        # A deferred placeholder must not stand in for the real node of the same type.
+        if node.cyclic or not isinstance(routine, DelayedUnmarshaller):
+            return routine
+
+    if node.cyclic and not inspection.isforwardref(node.unwrapped):
+        # The type itself is deferred (see `graph.get_type_graph`): resolve it lazily.
+        return DelayedUnmarshaller(node.unwrapped, context=context, var=node.var)
 
     for check, unmarshaller_cls in _HANDLERS.items():
         if check(node.unwrapped):
